@@ -142,6 +142,13 @@ def main(tier, seed, prop=PROP):
     ds = sorted(set(ds))
     for i in range(0, len(ds), 15000):
         jobs.append((w_list63, (exe, ds[i:i + 15000], opts, "dictionary", i == 0, False)))
+    native = cx.exe("asan-native", san="asan-native")
+    bl = LG.block_strings(utf8=True)
+    for i in range(0, len(bl), 8000):
+        jobs.append((w_list63, (exe, bl[i:i + 8000], opts, "blocks", False, False)))
+        jobs.append((w_list63, (native, bl[i:i + 8000], opts, "blocks/native", False, False)))
+    for i in range(0, len(ds), 15000):
+        jobs.append((w_list63, (native, ds[i:i + 15000][::3], opts, "dictionary/native", False, False)))
     wb = LG.width_boundary_strings(tier, utf8=True)
     for i in range(0, len(wb), 30):
         jobs.append((w_list63, (exe, wb[i:i + 30], opts, "width-boundaries", False, False)))
